@@ -639,9 +639,11 @@ def tlc_parallel(check, module, cfg, envvar, records, tag, procs=4, workers=4, t
 
 def prints_of(res, kind):
     prefix = '<<"%s", ' % kind
-    out = []
+    out, seen = [], set()
     for p in res.prints:
-        if p.startswith(prefix):
+        # (TLC evaluates the action again when it reconstructs a counterexample: each line twice)
+        if p.startswith(prefix) and p not in seen:
+            seen.add(p)
             out.append(json.loads(json.loads(p[len(prefix):-2])))
     return out
 
